@@ -92,7 +92,7 @@ func gid() int64 {
 // it starts when 60% of the posts have been made: the posters keep posting
 // while the loop dispatches a long backlog (any bounded fast path in front of
 // an overflow list is then full while both sides are active).
-func round(rr *rec, posters, per, nestEvery int, budget time.Duration, burstMode int) bool {
+func round(rr *rec, posters, per, nestEvery int, budget time.Duration, burstMode int, refused bool) bool {
 	burst := burstMode != 0
 	r := &scen{r: rr}
 	defer r.close()
@@ -139,6 +139,20 @@ func round(rr *rec, posters, per, nestEvery int, budget time.Duration, burstMode
 		runtime.LockOSThread()
 		atomic.StoreInt64(&loopGid, gid())
 		tm, _ := sonic.NewTimer(ioc)
+		// ... and, in every other round, makes registrations that the kernel refuses (a regular file cannot be
+		// added to epoll; with the dispatch counter at its limit the read is deferred to the poller): the
+		// loop-side roll-back of the pending counter runs while other goroutines post
+		var reg sonic.File
+		if refused {
+			if f, e := os.CreateTemp("", "verif-postmt"); e == nil {
+				_, _ = f.Write([]byte("x"))
+				name := f.Name()
+				f.Close()
+				reg, _ = sonic.Open(ioc, name, os.O_RDONLY, 0)
+				os.Remove(name)
+			}
+		}
+		rbuf := make([]byte, 1)
 		k := 0
 		if burst {
 			<-release
@@ -153,6 +167,16 @@ func round(rr *rec, posters, per, nestEvery int, budget time.Duration, burstMode
 					_ = tm.Cancel()
 				}
 			}
+			if reg != nil {
+				for j := 0; j < 50; j++ {
+					ioc.Dispatched = sonic.MaxCallbackDispatch
+					reg.AsyncRead(rbuf, func(error, int) {})
+					ioc.Dispatched = 0
+				}
+			}
+		}
+		if reg != nil {
+			_ = reg.Close()
 		}
 		if tm != nil {
 			_ = tm.Cancel()
@@ -278,7 +302,7 @@ func Run(a tr.Args) error {
 			// larger than any ordinary one)
 			burst, n, ps = 1, 40*per, posters
 		}
-		if !round(r, ps, n, nestEvery, budget, burst) {
+		if !round(r, ps, n, nestEvery, budget, burst, k%2 == 0) {
 			sum.Notes = fmt.Sprintf("round %d got stuck; stopped", k)
 			break
 		}
